@@ -463,7 +463,7 @@ def run_check(pid, tier, seed):
     for line in known_lines:
         print(line)
     if confirmed:
-        for sig, info in sorted(confirmed.items())[:8]:
+        for sig, info in sorted(confirmed.items())[:40]:
             path = write_replay(pid, sig, info)
             print("VIOLATION property=%s replay=%s" % (pid, path))
             print("  signature: %s\n  message: %s\n  occurrences: %d" % (sig, info["message"], info["count"]))
